@@ -397,7 +397,12 @@ def one_shot(e, R, sa, run):
             return F.run_auth_scripts([w, _fm(e, s2), T.compile_script(glue), _fm(e, s3)],
                                       dict(e.sf), **_lim(e)) is True
         if e.v == 'deprecated':
-            lock = T.make_adapter_lock_prv(e.X, e.t, e.bflags)
+            # (documented as deprecated: a DeprecationWarning from this builder is not a
+            # defect, also where the configuration pass turns warnings into errors)
+            import warnings
+            with warnings.catch_warnings():
+                warnings.simplefilter('ignore', DeprecationWarning)
+                lock = T.make_adapter_lock_prv(e.X, e.t, e.bflags)
             return F.run_auth_scripts([e.ext_code + pb(e.t) + pb(sa) + pb(R), _fm(e, lock)],
                                       dict(e.sf), **_lim(e)) is True
         if e.v == 'two_script':
